@@ -21,6 +21,12 @@ OPTION_SETS = {
     "assign_only": ["--assign-only"],
     "clean": ["--clean"],
     "drop_water": ["--drop-water"],
+    # the pKa path (hydrogens stripped and rebuilt between the two debumping
+    # passes) with debumping / optimisation switched off
+    "nodebump_noopt_pka": ["--nodebump", "--noopt",
+                           "--titration-state-method=propka", "--with-ph=7"],
+    "nodebump_pka": ["--nodebump", "--titration-state-method=propka",
+                     "--with-ph=7"],
     # PARSE only
     "neutraln": ["--neutraln"],
     "neutralc": ["--neutralc"],
@@ -952,6 +958,19 @@ TORSION_STEPS = (30.0, 90.0, 180.0, 270.0)
 BACKBONE = ("N", "CA", "C", "O", "OXT")
 
 
+_PINNED = None
+
+
+def _pinned_aliases():
+    global _PINNED
+    if _PINNED is None:
+        import json
+        from .engine import VERIF
+
+        _PINNED = json.loads((VERIF / "mc/refs/alias_names.json").read_text())
+    return _PINNED
+
+
 def alias_cases(ffs=("AMBER",), names=None):
     """Every alternative atom name the topology files define for a residue
     (and for its terminal patches, charged or neutral): the input uses the
@@ -966,6 +985,14 @@ def alias_cases(ffs=("AMBER",), names=None):
             for alt, canon in tmpl.altnames.items():
                 if canon in tmpl.atoms and alt not in tmpl.atoms:
                     al.setdefault(canon, []).append(alt)
+            # plus the pinned list (refs/alias_names.json): a spelling that
+            # disappears from the topology files must still be tried
+            for canon, alts in _pinned_aliases().get(f"{x}:{pos}",
+                                                     {}).items():
+                for alt in alts:
+                    if canon in tmpl.atoms and alt not in tmpl.atoms \
+                            and alt not in al.get(canon, []):
+                        al.setdefault(canon, []).append(alt)
             for canon, alts in sorted(al.items()):
                 if T.base_of(x) == "PRO" and pos == "n" and \
                         canon in ("H", "H2", "H3"):
